@@ -244,7 +244,7 @@ def cases(tier):
             names = [mi_h[i] for i in hs]
             if sum(1 for n in names if not n) > 1:
                 continue
-            for br in ('ZHB', 'HBZ'):
+            for br in ('ZHB', 'HBZ', 'HM2'):
                 idx += 1
                 yield {'fam': 'flat', 'handlers': names, 'br': br,
                        'hr': None, 'else': None,
@@ -343,7 +343,7 @@ def namespace(rv=0):
           'rv': RVALS[rv]}
     for i in range(12):
         ns['p%d' % i] = ['probe', i, ['lit', '']]
-    for c in CLS + ['HM']:
+    for c in CLS + ['HM', 'HM2']:
         ns['raise' + c] = ['raiser', 'r' + c, c, 'msg-' + c]
         ns[c + 'c'] = ['exc', c]
     for c in ('KeyError~', 'NotFound~', 'KeyError', 'IndexError',
